@@ -21,6 +21,7 @@ OpsAsIs  == OpsQuick \cup {Op("set", 3, I(1)), Op("read", 2, NoV), Op("set", 0, 
 OpsThorough == OpsQuick \cup OpsMore \cup {Op("set", 2, I(4)), Op("read", 1, NoV), Op("getstate", 2, NoV), Op("clear", 1, NoV),
                               Op("getdefault", 2, NoV), Op("getdefault", 1, NoV), Op("set", 1, N(1))}
 OpsT3 == OpsQuick \cup {Op("read", 2, NoV), Op("store", 1, NoV)}
+OpsDup == {Op("set", 1, I(9)), Op("read", 2, NoV), Op("read", 1, NoV), Op("getstate", 1, NoV), Op("store", 2, NoV), Op("getdefault", 2, NoV)}
 OpsShots == {Op("getstate", 1, NoV), Op("getstate", 2, NoV), Op("store", 1, NoV), Op("getdefault", 2, NoV),
              Op("getdefault", 1, NoV)}
 OpsShots4 == {Op("getstate", 1, NoV), Op("getstate", 2, NoV), Op("store", 1, NoV), Op("set", 1, I(9))}
